@@ -236,12 +236,13 @@ func TestWaitGroupSeq(t *testing.T) {
 // ---------------------------------------------------------------------------------------------------------
 
 type wgConcProg struct {
+	Slow    int      `json:"slow"`
 	Init    []int    `json:"init"`
 	Scripts [][]wgOp `json:"scripts"`
 }
 
 func (p wgConcProg) strings() []string {
-	out := []string{fmt.Sprintf("init %v", p.Init)}
+	out := []string{fmt.Sprintf("init %v slow %d", p.Init, p.Slow)}
 	for i, s := range p.Scripts {
 		var l []string
 		for _, o := range s {
@@ -260,9 +261,10 @@ type wgWatch struct {
 	everEmptied bool
 }
 
-func watchWG(w reactive.WaitGroup[int]) *wgWatch {
+func watchWG(w reactive.WaitGroup[int], slow int) *wgWatch {
 	ww := &wgWatch{fold: map[int]bool{}}
 	w.PendingElements().OnUpdate(func(m ds.SetMutations[int]) {
+		gosched(slow) // stretches the window between the set operation and the counter update of the caller
 		ww.mu.Lock()
 		defer ww.mu.Unlock()
 		m.AddedElements().Range(func(e int) { ww.fold[e] = true })
@@ -295,16 +297,16 @@ func (ww *wgWatch) judge(w reactive.WaitGroup[int]) []string {
 func runWGConc(p wgConcProg) verdict {
 	reactive.VerifHookWaitGroupAdd = nil
 	w := reactive.NewWaitGroup(p.Init...)
-	ww := watchWG(w)
+	ww := watchWG(w, p.Slow)
 	var clock ctl.Clock
 	stamps := make([][]stampPair, len(p.Scripts))
-	start := make(chan struct{})
+	var start barrier
 	var wg sync.WaitGroup
 	for gi, script := range p.Scripts {
 		wg.Add(1)
 		go func(gi int, script []wgOp) {
 			defer wg.Done()
-			<-start
+			start.wait()
 			for _, o := range script {
 				gosched(o.Yld)
 				st := stampPair{A: clock.Tick()}
@@ -315,7 +317,7 @@ func runWGConc(p wgConcProg) verdict {
 		}(gi, script)
 	}
 	v := verdict{}
-	if !ctl.Within(hangTimeout(), func() { close(start); wg.Wait() }) {
+	if !ctl.Within(hangTimeout(), func() { start.release(len(p.Scripts)); wg.Wait() }) {
 		hangSeen.Store(true)
 		v.Hang = true
 		v.Msg = "run did not finish within the hang bound; goroutine dump:\n" + ctl.Dump()
@@ -352,7 +354,7 @@ const checkWGConc = "waitgroup_concurrent"
 func TestWaitGroupConc(t *testing.T) {
 	stats.Rule(checkWGConc, "rapid draws initial elements and 2-4 goroutine scripts of 1-6 Add / Done calls (0-3 elements of 0..3 each, drawn yields). Interleaving is the Go scheduler's. Oracle at quiescence, from the pending-set history seen by a subscriber present from the start: nothing pending and >=1 removal => triggered; triggered => the pending set was emptied by a Done; 20 s hang watchdog. Non-trivial = an Add overlapped a Done of another goroutine (by stamps). Distinct by program.")
 	rapid.Check(t, func(rt *rapid.T) {
-		p := wgConcProg{Init: rapid.SliceOfN(rapid.IntRange(0, wgElems-1), 0, 3).Draw(rt, "init")}
+		p := wgConcProg{Init: rapid.SliceOfN(rapid.IntRange(0, wgElems-1), 0, 3).Draw(rt, "init"), Slow: rapid.IntRange(0, 2).Draw(rt, "slow")}
 		op := rapid.Custom(func(t *rapid.T) wgOp {
 			o := genWGSimple().Draw(t, "op")
 			o.Yld = rapid.IntRange(0, 3).Draw(t, "yield")
@@ -381,12 +383,12 @@ func TestWaitGroupAddDoneLoop(t *testing.T) {
 	emptied := 0
 	for i := 0; i < trials; i++ {
 		w := reactive.NewWaitGroup(7)
-		start := make(chan struct{})
+		var start barrier
 		var wg sync.WaitGroup
 		wg.Add(2)
-		go func() { defer wg.Done(); <-start; w.Add(7) }()
-		go func() { defer wg.Done(); <-start; w.Done(7) }()
-		close(start)
+		go func() { defer wg.Done(); start.wait(); w.Add(7) }()
+		go func() { defer wg.Done(); start.wait(); w.Done(7) }()
+		start.release(2)
 		wg.Wait()
 		if w.PendingElements().IsEmpty() {
 			emptied++
